@@ -8,8 +8,10 @@
 //   --mode random --sizes small|large|late --seed S --shard k --n N   (randomised families, silent for all seeds)
 //   --mode adversarial                                           (fixed deterministic set, §6 item 18)
 //   --mode reuse --seed S --shard k --n N                        (several solves on one solver object)
+//   --mode ompenv --env NAME --seed S --n N [--region 1] [--nested 1] [--dense 1]   (OpenMP environments)
 #include "vfh.h"
 #include <cfloat>
+#include <omp.h>
 #include <votca/xtp/davidsonsolver.h>
 #include <votca/xtp/matrixfreeoperator.h>
 
@@ -683,6 +685,95 @@ static void run_reuse(vfh::Reporter &R, long seed, long shard, long nseq, long o
   }
 }
 
+// ------------------------------------------------------------------ OpenMP environments
+// A modest, fixed-per-seed set of cases (the same for every environment) solved under different OpenMP
+// environments: the process environment (OMP_NUM_THREADS / OMP_THREAD_LIMIT / OMP_DYNAMIC) is set by c09.py,
+// "region" runs solve() from inside "#pragma omp parallel num_threads(3)", each thread with its own matrix copy,
+// operator, logger and solver; "nested" additionally allows two active levels. Same oracle, keys omp-env/<env>/...
+struct OmpCase {
+  Mat m;
+  Cfg c;
+};
+static std::vector<OmpCase> omp_cases(long seed, long ncases, bool dense) {
+  std::vector<OmpCase> v;
+  vfh::Rng r((uint64_t)seed * 1000003ULL + 4711);
+  for (long i = 0; i < ncases; ++i) {
+    OmpCase oc;
+    int kind = (int)(i % 3);  // 0 diagonally dominant, 1 clustered, 2 BSE form (HAM)
+    long n = (i % 6 == 5) ? r.range(200, 300) : r.range(40, 160);
+    if (kind == 0) oc.m = gen_symm(r, n, 0);
+    else if (kind == 1) oc.m = gen_symm(r, n, 2);
+    else oc.m = gen_ham(r, n / 2);
+    Cfg c;
+    c.ham = oc.m.ham;
+    c.corr = CORR[r.range(0, 1)];
+    c.upd = UPD[r.range(0, 2)];
+    c.tol = TOL[r.range(0, 2)];
+    c.tolv = tol_value(c.tol);
+    long div = c.upd == "min" ? 4 : (c.upd == "safe" ? 5 : 6);
+    c.neigen = std::max<long>(1, std::min<long>(r.range(1, 12), oc.m.n / div));
+    long upd = c.upd == "min" ? c.neigen : c.upd == "max" ? 2 * c.neigen : (long)(1.5 * (double)c.neigen);
+    long hi = std::max(c.neigen, oc.m.n - upd);
+    c.max_space = 5 * c.neigen <= hi ? 0 : hi;  // default search space whenever the basis then stays within the dimension
+    c.iter_max = 50;
+    c.matfree = !dense;
+    oc.c = c;
+    v.push_back(oc);
+  }
+  return v;
+}
+
+static void run_ompenv(vfh::Reporter &R, const std::string &env, long seed, long ncases, bool region, bool nested, bool dense) {
+  const std::string kp = "omp-env/" + env + "/";
+  // ---- what the OpenMP run-time actually delivers here
+  int delivered = 0, region_team = 0, nested_delivered = 0;
+#pragma omp parallel
+  {
+#pragma omp single
+    delivered = omp_get_num_threads();
+  }
+  R.counter(kp + "probe_omp_get_max_threads", omp_get_max_threads());
+  R.counter(kp + "probe_threads_delivered_in_a_parallel_region", delivered);
+  R.counter(kp + "probe_omp_get_thread_limit", omp_get_thread_limit() > 1000000 ? -1 : omp_get_thread_limit());
+  R.counter(kp + "probe_omp_get_dynamic", omp_get_dynamic());
+  if (nested) omp_set_max_active_levels(2);
+  R.counter(kp + "probe_max_active_levels", omp_get_max_active_levels());
+  std::vector<OmpCase> cases = omp_cases(seed, ncases, dense);
+  std::vector<Outcome> out(cases.size());
+  if (region) {
+#pragma omp parallel num_threads(3)
+    {
+      int team = omp_get_num_threads(), t = omp_get_thread_num();
+      int inner = 0;
+#pragma omp parallel
+      {
+#pragma omp single
+        inner = omp_get_num_threads();
+      }
+      if (t == 0) { region_team = team; nested_delivered = inner; }
+      for (size_t i = (size_t)t; i < cases.size(); i += (size_t)team) {
+        const MatrixXd Mlocal = cases[i].m.M;  // this thread's own matrix, operator, logger and solver
+        out[i] = solve(Mlocal, cases[i].c);
+      }
+    }
+    R.counter(kp + "probe_team_size_of_the_calling_region", region_team);
+    R.counter(kp + "probe_threads_delivered_to_a_nested_region", nested_delivered);
+  } else {
+    for (size_t i = 0; i < cases.size(); ++i) out[i] = solve(cases[i].m.M, cases[i].c);
+  }
+  for (size_t i = 0; i < cases.size(); ++i) {
+    const Mat &m = cases[i].m;
+    const Cfg &c = cases[i].c;
+    std::string rps = "c09 --mode ompenv --env " + env + " --seed " + std::to_string(seed) + " --n " + std::to_string(ncases) + (region ? " --region 1" : "") + (nested ? " --nested 1" : "") + (dense ? " --dense 1" : "") + "  (case " + std::to_string(i) + "; process environment as listed in the evidence)";
+    vfh::set_case(J().s("replay", rps).raw("options", cjson(c)).str());
+    R.eval("omp_env_" + env);
+    bool js = judge(R, m, c, out[i], rps, "", kp);
+    R.counter(kp + (js ? "success" : out[i].threw ? "exception" : "not_converged"));
+    R.counter(kp + "cases:" + m.family);
+    if (m.n >= 4) R.nontrivial(vfh::hstr(vfh::hmix(m.gen_seed, (uint64_t)i * 31 + (uint64_t)c.neigen), env));
+  }
+}
+
 // ------------------------------------------------------------------ adversarial, deterministic (§6 item 18)
 // The lowest root lives in a block that is EXACTLY decoupled from the block the
 // unit-vector guesses (smallest diagonal entries) start in.
@@ -862,6 +953,7 @@ int main(int argc, char **argv) {
   LATE_TIGHT_SHARE = A.real("late-tight", LATE_TIGHT_SHARE); LATE_LOOSE_SHARE = A.real("late-loose", LATE_LOOSE_SHARE);
   LATE_SOLVES_PER_MATRIX = A.num("late-solves-per-matrix", LATE_SOLVES_PER_MATRIX);
   if (mode == "adversarial") run_adversarial(R);
+  else if (mode == "ompenv") run_ompenv(R, A.str("env", "unnamed"), A.num("seed", 1), A.num("n", 18), A.num("region", 0) != 0, A.num("nested", 0) != 0, A.num("dense", 0) != 0);
   else if (mode == "reuse") run_reuse(R, A.num("seed", 1), A.num("shard", 0), A.num("n", 20), A.has("only") ? A.num("only", 0) : -1);
   else run_random(R, A.num("seed", 1), A.num("shard", 0), A.num("n", 20), A.str("sizes", "small") == "large", A.has("only") ? A.num("only", 0) : -1, A.str("sizes", "small") == "late");
   R.summary();
